@@ -146,7 +146,7 @@ def _sh(s):
     return strip_ver(s).replace("<Operation as OperationControl>::", "")
 
 
-@rule("RELUCTANT-REPEAT", ["C01", "C02", "C06", "C20", "C16", "C12"], floor=10)
+@rule("RELUCTANT-REPEAT", ["C01", "C02", "C06", "C20", "C16", "C12", "C03", "C04", "C19", "C15"], floor=10)
 def reluctant_repeat(ctx):
     """ReluctantRepeatIterator::next (variable-length reluctant repeat) enumerates end positions fewest iterations
     first and completely: with min == 0 the start position (no iteration) comes first; a further iteration is
@@ -176,6 +176,19 @@ def reluctant_repeat(ctx):
         lv = [g for g in gs if g.startswith("variant(last(a1.iterations))=")]
         last_none = bool(lv) and lv[0].endswith("=None")  # the first look at the stack (a later one is the yield)
         here = "a1.start" if last_none else _LAST + ".position"
+        if "a1.started" in gs:
+            # asked again: what followed the position delivered last was given up, and its groups with it.  The
+            # positions come in no particular order (a later one may be larger), so Sequence's clearing beyond the
+            # new position does not cover them: like its siblings (ChoiceIterator::next_branch,
+            # ReluctantFixedIterator::next) the iterator clears the groups beyond what it delivered (or beyond its
+            # start) before it produces anything else
+            eff = [(c[0], c[1]) for c in cs]
+            first_work = next((i for i, c in enumerate(eff) if c[0].endswith("matches_iter") or (c[0] == "next" and ".matches" in (c[1] or [""])[0])), None)
+            ci = [i for i, c in enumerate(eff) if c[0].endswith("clear_captured_groups_beyond")]
+            if first_work is not None:
+                okx = ("a1.start", here, _LAST + ".from") if not last_none else ("a1.start",)
+                good = bool(ci) and ci[0] < first_work and eff[ci[0]][1][0] == "a1.matcher" and eff[ci[0]][1][1] in okx
+                _rec(d, "asked-again-forgets-abandoned-groups", good, "asked for another position, the iterator tries a further iteration / another match of an iteration without first clearing the groups captured beyond the position it delivered last (clear_captured_groups_beyond): a group set by the abandoned continuation survives into the match, e.g. 'x(?:\\w+?)*?(bcd)??c' on 'xbcd' reports group 1 = 'bcd' for the match 'xbc' and analyze loses the 'x' (calls before: %s)" % [c[0] for c in eff[:first_work]][:4], loc)
         M = "matches_iter(a1.operation, a1.matcher, %s)" % here
         if len(mi) > 1:
             _rec(d, "one-iteration-per-turn", False, "more than one new iteration is started in one turn", loc)
@@ -223,7 +236,10 @@ def reluctant_repeat(ctx):
         rs = {_sh(render(q.ret)) for q in ctx.walk(nb).paths}
         want = "ReluctantRepeatIterator::ReluctantRepeatIterator{matcher: a1, operation: a2, min: a4, max: a5, start: a3, started: false, iterations: Vec::new()}"
         _rec(d, "new", rs == {want}, "ReluctantRepeatIterator::new must start with no iteration, not started, at the given position; found %s" % sorted(rs)[:1], nb.loc())
-    return _emit(d)
+    out = _emit(d)
+    for i in out:
+        i.props = ["C03", "C04", "C19", "C15"] if i.key.startswith("asked-again-forgets") else ["C01", "C02", "C06", "C20", "C16", "C12"]
+    return out
 
 
 # ------------------------------------------------------------------ pruning devices (cuts)
